@@ -224,6 +224,8 @@ MUTANTS = [
     ('C19', 'revert-idle-attrs', ('revert', '17d9ca4'), 'C19.b'),
     ('C19', 'revert-create-keywords', ('revert', '9fd92bd'), 'C19.j'),
     ('C20', 'revert-unparseable-credentials', ('revert', 'd878e4c'), 'C20.a'),
+    ('C20', 'revert-default-encoder', ('revert', '7be9dce'), 'C20.a'),
+    ('C20', 'revert-fingerprint-separator', ('revert', '010b2e3'), 'C20.d'),
 ]
 
 # behaviour-preserving edits: the check of the property must stay silent
